@@ -443,8 +443,10 @@ def add_covariate_effect(
 
     # NOTE: This is a heuristic that simplifies the NONMEM statements by
     # grouping multiple effect statements in a single statement.
-    if last_existing_parameter_assignment.expression.args and all(
-        map(cov_possible.__contains__, last_existing_parameter_assignment.expression.args)
+    if (
+        not last_existing_parameter_assignment.expression.is_piecewise()
+        and last_existing_parameter_assignment.expression.args
+        and all(map(cov_possible.__contains__, last_existing_parameter_assignment.expression.args))
     ):
         statements[-1] = Assignment.create(
             effect_statement.symbol,
